@@ -1227,7 +1227,8 @@ class DocutilsRenderer(RendererProtocol):
         if isinstance(token.content, str):
             try:
                 data = yaml.safe_load(token.content)
-            except (yaml.YAMLError, RecursionError):
+            except Exception:
+                # not only yaml.YAMLError: the loader's constructors can also raise e.g. AttributeError
                 self.create_warning(
                     "Malformed YAML",
                     MystWarnings.MD_TOPMATTER,
